@@ -191,6 +191,8 @@ class Program:
         self._subclasses: dict[str, list] = {}
         self._load()
         self._index()
+        from .nf import register_helpers
+        register_helpers(self)
 
     # ---------------------------------------------------------------- loading
     def _load(self):
